@@ -240,7 +240,8 @@ def overlay_sweep(col, sig0, background):
         for extra in itertools.combinations(others, r):
             sigs = ([sig0] if sig0 else []) + list(extra)
             for length in lengths:
-                for fat in ((False, True) if 'gpt' in extra else (False,)):
+                for fat in ((False, True, 'numfats', 'media')
+                            if 'gpt' in extra else (False,)):
                     content = {'overlay': dict(length=length,
                                                background=background,
                                                sigs=sigs, fill=7, fat=fat),
